@@ -38,6 +38,7 @@ class RandSDE(nn.Module):
             self.gb = r(d * self.m)
         self.Hh = r(d, d)
 
+    gsign = None  # when set (diagonal noise): per-coordinate signs of the diffusion (a diffusion may be negative)
     stiff_until = None  # when set: the drift is 40x stronger for t < stiff_until (forces the controller down to dt_min)
 
     def f(self, t, y):
@@ -48,7 +49,8 @@ class RandSDE(nn.Module):
 
     def g(self, t, y):
         if self.noise_type == 'diagonal':
-            return 0.3 + 0.2 * torch.sin(self.G * y + self.gb + t)
+            out = 0.3 + 0.2 * torch.sin(self.G * y + self.gb + t)
+            return out if self.gsign is None else out * self.gsign
         if self.noise_type == 'additive':
             out = 0.3 * torch.cos(self.gb * (1 + t)).expand(y.shape[0], -1)
         else:
@@ -69,18 +71,21 @@ class Minus(nn.Module):
     def g(self, t, y): return -self.base.g(-t, y)
 
 
-def reversibility_defect(noise, d, m, batch, steps, dt, seed, shape='lattice'):
-    sde = RandSDE(noise, 'stratonovich', d, m, seed)
+def reversibility_defect(noise, d, m, batch, steps, dt, seed, shape='lattice', precision='f64', t_start=0.0):
+    """precision='mixed': float32 state / SDE / Brownian motion with a float64 time grid whose points float32 cannot represent (the
+    documented mixed-precision use); the reverse solve must query the Brownian motion at exactly the forward times."""
+    dtype = torch.float64 if precision == 'f64' else torch.float32
+    sde = RandSDE(noise, 'stratonovich', d, m, seed, dtype=dtype)
     torch.manual_seed(seed)
-    y0 = 0.3 * torch.randn(batch, d, dtype=torch.float64)
+    y0 = (0.3 * torch.randn(batch, d, dtype=torch.float64)).to(dtype)
     if shape == 'clipped':      # one step, shorter than dt (clipped to ts[-1]); mirrored trivially
-        ts = torch.tensor([0.0, 0.5 * dt], dtype=torch.float64)
+        ts = torch.tensor([t_start, t_start + 0.5 * dt], dtype=torch.float64)
     elif shape == 'offlattice' and steps >= 2:  # interior output times off the dt lattice, total length a multiple of dt
         inner = sorted({(k + 0.5) * dt for k in range(steps) if (k * 7 + seed) % 3 == 0} | {0.375 * dt})
-        ts = torch.tensor([0.0] + inner + [steps * dt], dtype=torch.float64)
+        ts = torch.tensor([t_start] + [t_start + x for x in inner] + [t_start + steps * dt], dtype=torch.float64)
     else:
-        ts = torch.tensor([k * dt for k in range(steps + 1)], dtype=torch.float64)
-    bm = BrownianInterval(t0=ts[0], t1=ts[-1], size=(batch, sde.m), dtype=torch.float64, entropy=seed)
+        ts = torch.tensor([t_start + k * dt for k in range(steps + 1)], dtype=torch.float64)
+    bm = BrownianInterval(t0=ts[0], t1=ts[-1], size=(batch, sde.m), dtype=dtype, entropy=seed)
     with torch.no_grad():
         ys, (f, g, z) = torchsde.sdeint(sde, y0, ts, bm=bm, method='reversible_heun', dt=dt, extra=True)
         back = torchsde.sdeint(Minus(sde), ys[-1], -ts.flip(0), bm=torchsde.ReverseBrownian(bm),
@@ -89,20 +94,29 @@ def reversibility_defect(noise, d, m, batch, steps, dt, seed, shape='lattice'):
 
 
 def reversibility_search(rng, n, tol=1e-9):
-    fails, evals, worst = [], 0, 0.0
+    fails, evals, worst, worst32, mixed = [], 0, 0.0, 0.0, 0
     for _ in range(n):
         cfg = dict(noise=rng.choice(NOISE), d=rng.choice([1, 2, 3]), m=rng.choice([1, 2, 3]), batch=rng.choice([1, 3]),
                    steps=rng.choice([1, 2, 5, 8]), dt=rng.choice([0.125, 0.0625, 0.25]), seed=rng.randrange(10 ** 6),
                    shape=rng.choice(['lattice', 'lattice', 'clipped', 'offlattice']))
         # dyadic dt: the accumulated float grid `curr_t + dt` is then exact in both directions (see finding F9)
+        lim = tol
+        if rng.random() < 0.3:
+            # mixed precision; dt = 2^-k + 2^-30 is exact in float64 (so is every k*dt here) but not representable in float32
+            cfg.update(precision='mixed', dt=cfg['dt'] + 2.0 ** -30, t_start=rng.choice([0.0, 1.0, 64.0]))
+            lim = 2e-5   # float32 rounding (measured on the unchanged tree: < 3e-6); a Brownian sliver from rounded times is > 1e-4
+            mixed += 1
         dfc = reversibility_defect(**cfg)
         evals += 1
-        worst = max(worst, dfc)
-        if not (dfc <= tol):
+        if cfg.get('precision') == 'mixed':
+            worst32 = max(worst32, dfc)
+        else:
+            worst = max(worst, dfc)
+        if not (dfc <= lim):
             fails.append(dict(kind='reversibility', defect=dfc, **cfg))
             if len(fails) >= 2:
                 break
-    return fails, dict(evals=evals, worst=worst)
+    return fails, dict(evals=evals, worst=worst, mixed_precision_runs=mixed, worst_mixed=worst32)
 
 
 # ---------------------------------------------------------------------------------------------------------------
@@ -510,6 +524,9 @@ def c18_search(rng, n):
         seed = rng.randrange(10 ** 6)
         sde = RandSDE(noise, sde_type, d, m, seed)
         mm = sde.m
+        if noise == 'diagonal' and rng.random() < 0.6:
+            sde.gsign = torch.tensor([rng.choice([1.0, -1.0]) for _ in range(d)], dtype=torch.float64)
+            st['negative_diffusion'] = st.get('negative_diffusion', 0) + 1
         g0 = torch.Generator().manual_seed(seed)
         y0 = 0.3 * torch.randn(batch, d, generator=g0, dtype=torch.float64)
         dt = rng.choice([0.125, 0.0625])
@@ -550,7 +567,8 @@ def c18_search(rng, n):
             bad = f'{type(e).__name__}: {e}'
         st['evals'] += 1
         if bad:
-            fails.append(dict(kind='c18', method=method, noise=noise, d=d, m=mm, batch=batch, seed=seed, dt=dt, why=bad))
+            fails.append(dict(kind='c18', method=method, noise=noise, d=d, m=mm, batch=batch, seed=seed, dt=dt, why=bad,
+                              gsign=(None if sde.gsign is None else sde.gsign.tolist())))
             if len(fails) >= 2:
                 break
     return fails, st
@@ -719,15 +737,17 @@ class SinhSDE(nn.Module):
         return torch.sinh(torch.asinh(y0) + W)
 
 
-def strong_order_estimate(method, sde_type, noise, seed, options=None, paths=400, T=1.0, ks=(3, 5, 7), family='gbm'):
+def strong_order_estimate(method, sde_type, noise, seed, options=None, paths=400, T=1.0, ks=(3, 5, 7), family='gbm', grid='dividing'):
+    """grid='clipped': dt = T / (2^k + 1/2), so that the last step is clipped to ts[-1] (dt does not divide the horizon)"""
     sde = GBM(noise, sde_type) if family == 'gbm' else SinhSDE(noise, sde_type)
     y0 = torch.full((paths, 1), 1.0 if family == 'gbm' else 0.3, dtype=torch.float64)
     levy = LEVY.get(method, 'none')
     errs = []
     for k in ks:
         bm = BrownianInterval(t0=0.0, t1=T, size=(paths, 1), dtype=torch.float64, entropy=seed, levy_area_approximation=levy)
+        step = 2.0 ** -k if grid == 'dividing' else T / (2.0 ** k + 0.5)
         with torch.no_grad():
-            ys = torchsde.sdeint(sde, y0, [0.0, T], bm=bm, method=method, dt=2.0 ** -k, options=options)
+            ys = torchsde.sdeint(sde, y0, [0.0, T], bm=bm, method=method, dt=step, options=options)
         W = bm(0.0, T)
         ex = sde.exact(y0, T, W)
         errs.append(float(((ys[-1] - ex) ** 2).mean().sqrt()))
@@ -748,18 +768,20 @@ def c01_search(rng, rounds=1):
                     seed = rng.randrange(10 ** 6)
                     from torchsde._core import methods as _m
                     family = rng.choice(['gbm', 'sinh'])
+                    grid = rng.choice(['dividing', 'clipped'])
                     try:
                         slope, errs = strong_order_estimate(method, sde_type, noise, seed, options=dict(grad_free=True) if gf else None,
-                                                            family=family)
+                                                            family=family, grid=grid)
                         from .author_c02 import advertised_order
                         p = advertised_order(method, sde_type, noise, gf)
                         bad = None if slope >= p - 0.3 else f"RMS error {errs} at dt = 2^-3, 2^-5, 2^-7: slope {slope:.2f} < advertised {p} - 0.3"
                     except Exception as e:  # noqa
                         bad, slope = f"{type(e).__name__}: {e}", float('nan')
                     st['evals'] += 1
-                    st['slopes'][f"{method}/{sde_type[0]}/{noise}{'/gf' if gf else ''}/{family}"] = round(slope, 2)
+                    st['slopes'][f"{method}/{sde_type[0]}/{noise}{'/gf' if gf else ''}/{family}/{grid}"] = round(slope, 2)
                     if bad:
-                        fails.append(dict(kind='c01', method=method, sde_type=sde_type, noise=noise, grad_free=gf, seed=seed, family=family, why=bad))
+                        fails.append(dict(kind='c01', method=method, sde_type=sde_type, noise=noise, grad_free=gf, seed=seed, family=family, grid=grid,
+                                          why=bad))
     return fails[:3], st
 
 
@@ -990,6 +1012,26 @@ class ParamGBM(nn.Module):
         return self.b * y if self.noise_type == 'diagonal' else (self.b * y).unsqueeze(-1)
 
 
+class ParamSinh(nn.Module):
+    """dy = a sqrt(1+y^2) dt + b sqrt(1+y^2) o dW  (Ito form: drift + b^2 y / 2);  y_t = sinh(asinh(y0) + a t + b W_t).  Nonlinear: the
+    Jacobians of drift and diffusion depend on the state, so the adjoint is only right if it is evaluated along the right trajectory."""
+
+    def __init__(self, noise_type, sde_type, a=0.3, b=0.5):
+        super().__init__()
+        self.noise_type, self.sde_type = noise_type, sde_type
+        self.a = nn.Parameter(torch.tensor(a, dtype=torch.float64))
+        self.b = nn.Parameter(torch.tensor(b, dtype=torch.float64))
+        self.c = nn.Parameter(torch.tensor(1.0, dtype=torch.float64))
+
+    def f(self, t, y):
+        out = self.a * torch.sqrt(1 + y * y)
+        return out + 0.5 * self.b ** 2 * y if self.sde_type == 'ito' else out
+
+    def g(self, t, y):
+        out = self.b * torch.sqrt(1 + y * y)
+        return out if self.noise_type == 'diagonal' else out.unsqueeze(-1)
+
+
 def c09_forward_equal(rng):
     p, sde, y0 = make_problem(rng)
     dt = rng.choice([0.125, 0.1, 0.05])
@@ -1008,26 +1050,42 @@ def c09_forward_equal(rng):
     return torch.equal(a, b.detach()), dict(p, dt=dt, ts=ts, adjoint_method=am)
 
 
-def c09_gradient_errors(sde_type, noise, method, adjoint_method, seed, paths=64, T=0.5, ks=(3, 5, 7)):
-    """relative error of the adjoint gradient of sum(y_T) w.r.t. (y0, a, b) against the gradient of the EXACT solution on the same
-    Brownian paths, for dt = 2^-k"""
+C09_WEIGHTS = {'last': (0.0, 0.0, 0.0, 1.0), 'interior': (0.0, 1.0, -0.7, 0.0), 'first-interior': (0.0, 1.0, 0.0, 0.0),
+               'all': (0.3, -0.5, 0.8, 1.0), 'skip-middle': (0.0, 0.6, 0.0, 1.0)}
+
+
+def c09_gradient_errors(sde_type, noise, method, adjoint_method, seed, paths=64, T=0.5, ks=(3, 5, 7), weights='last', family='gbm'):
+    """relative error of the adjoint gradient of  sum_k w_k sum(y_{t_k})  (output times 0, T/4, T/2, T; w = C09_WEIGHTS[weights])
+    w.r.t. (y0, a, b) against the gradient of the EXACT solution on the same Brownian paths, for dt = 2^-k; family 'gbm' (linear) or
+    'sinh' (nonlinear, closed form sinh(asinh(y0) + a t + b W))"""
     errs = []
+    w = C09_WEIGHTS[weights]
+    ts = [0.0, 0.25 * T, 0.5 * T, T]
     for k in ks:
-        sde = ParamGBM(noise, sde_type)
-        y0 = torch.full((paths, 1), 1.0, dtype=torch.float64, requires_grad=True)
+        sde = ParamGBM(noise, sde_type) if family == 'gbm' else ParamSinh(noise, sde_type)
+        y0 = torch.full((paths, 1), 1.0 if family == 'gbm' else 0.4, dtype=torch.float64, requires_grad=True)
         levy = LEVY.get(method, 'none')
         bm = BrownianInterval(t0=0.0, t1=T, size=(paths, 1), dtype=torch.float64, entropy=seed, levy_area_approximation=levy)
-        ys = torchsde.sdeint_adjoint(sde, y0, [0.0, T], bm=bm, method=method, adjoint_method=adjoint_method, dt=2.0 ** -k)
-        gy, ga, gb = torch.autograd.grad(ys[-1].sum(), [y0, sde.a, sde.b])
-        W = bm(0.0, T)
+        ys = torchsde.sdeint_adjoint(sde, y0, ts, bm=bm, method=method, adjoint_method=adjoint_method, dt=2.0 ** -k)
+        loss = sum(wk * ys[i].sum() for i, wk in enumerate(w) if wk != 0.0)
+        gy, ga, gb = torch.autograd.grad(loss, [y0, sde.a, sde.b])
         a, b = float(sde.a), float(sde.b)
-        drift = (a - 0.5 * b * b) if sde_type == 'ito' else a
-        yT = torch.exp(drift * T + b * W)
-        ex_y = yT
-        ex_a = (T * yT).sum()
-        ex_b = ((W - b * T) * yT).sum() if sde_type == 'ito' else (W * yT).sum()
-        e = max(float((gy - ex_y).abs().max() / ex_y.abs().max()), abs(float(ga - ex_a)) / abs(float(ex_a)),
-                abs(float(gb - ex_b)) / max(1.0, abs(float(ex_b))))
+        drift = (a - 0.5 * b * b) if (sde_type == 'ito' and family == 'gbm') else a
+        ex_y, ex_a, ex_b = torch.zeros_like(gy), 0.0, 0.0
+        for i, wk in enumerate(w):
+            t = ts[i]
+            W = bm(0.0, t) if t > 0 else torch.zeros(paths, 1, dtype=torch.float64)
+            if family == 'gbm':
+                yt = torch.exp(drift * t + b * W)
+                dy0, da, db = yt, t * yt, ((W - b * t) if sde_type == 'ito' else W) * yt
+            else:
+                ch = torch.cosh(math.asinh(0.4) + a * t + b * W)
+                dy0, da, db = ch / math.sqrt(1 + 0.16), t * ch, W * ch
+            ex_y = ex_y + wk * dy0
+            ex_a = ex_a + wk * float(da.sum())
+            ex_b = ex_b + wk * float(db.sum())
+        e = max(float((gy - ex_y).abs().max() / ex_y.abs().max()), abs(float(ga) - ex_a) / max(1.0, abs(ex_a)),
+                abs(float(gb) - ex_b) / max(1.0, abs(ex_b)))
         errs.append(e)
     return errs
 
@@ -1060,22 +1118,37 @@ def c09_search(rng, n):
                     am = 'adjoint_reversible_heun'
                 combos.append((sde_type, noise, method, am))
     rng.shuffle(combos)
-    for sde_type, noise, method, am in combos[:max(6, n // 4)]:
+    chosen = [(c, rng.choice(list(C09_WEIGHTS))) for c in combos[:max(6, n // 4)]]
+    # the reversible pair carries solver state from the end of the forward pass into the backward pass: always exercised with a loss
+    # that ignores the last output time(s)
+    rnoise = rng.choice(['diagonal', 'scalar', 'general'])
+    chosen += [(('stratonovich', rnoise, 'reversible_heun', 'adjoint_reversible_heun'), rng.choice(['interior', 'first-interior'])),
+               (('stratonovich', rng.choice(['diagonal', 'general']), rng.choice(['midpoint', 'heun']), None), 'first-interior')]
+    slow = ('euler', 'euler_heun')
+    for (sde_type, noise, method, am), wname in chosen:
         seed = rng.randrange(10 ** 6)
         try:
-            # order-0.5 adjoint solvers converge slowly and noisily (single set of 64 paths): compare a coarse step with the
-            # mean of two fine ones; a broken adjoint leaves an O(1) error that does not move
-            errs = c09_gradient_errors(sde_type, noise, method, am, seed, ks=(3, 9, 10))
+            # compare the mean of two fine steps with a floor: order-0.5 forward or adjoint solvers converge slowly and noisily on a
+            # single set of 64 paths (measured over 650 runs on the unchanged tree, both SDE families: <= 0.034; all others: <= 0.012); a broken adjoint
+            # leaves an error of a few per cent or more that does not move
+            family = 'sinh' if (method == 'reversible_heun' or rng.random() < 0.6) else 'gbm'
+            errs = c09_gradient_errors(sde_type, noise, method, am, seed, ks=(3, 9, 10), weights=wname, family=family)
             final = 0.5 * (errs[1] + errs[2])
+            is_slow = method in slow or am in slow or (am is None and sde_type == 'ito' and noise in ('general', 'scalar'))
+            floor = 0.08 if is_slow else 0.035
             st['convergence'] += 1
             st['evals'] += 1
             st['worst_final_err'] = max(st['worst_final_err'], final)
-            if not (final < max(0.08, 0.6 * errs[0])):
+            st['weights'] = st.get('weights', {})
+            st['weights'][wname] = st['weights'].get(wname, 0) + 1
+            if not (final < floor):
                 fails.append(dict(kind='c09-convergence', sde_type=sde_type, noise=noise, method=method, adjoint_method=am, seed=seed,
-                                  why=f"relative gradient errors {errs} at dt = 2^-3, 2^-9, 2^-10 do not shrink"))
+                                  weights=wname, family=family,
+                                  why=f"relative gradient errors {errs} at dt = 2^-3, 2^-9, 2^-10 (loss weights {C09_WEIGHTS[wname]} on the "
+                                      f"output times 0, T/4, T/2, T) stay above {floor}"))
         except Exception as e:  # noqa
             fails.append(dict(kind='c09-convergence', sde_type=sde_type, noise=noise, method=method, adjoint_method=am, seed=seed,
-                              why=f"{type(e).__name__}: {e}"))
+                              weights=wname, why=f"{type(e).__name__}: {e}"))
         if len(fails) >= 2:
             return fails, st
     # only the tensors asked for receive gradients
